@@ -885,6 +885,49 @@ func checkHist(h histCase) *mc.Failure {
 	return nil
 }
 
+// ---- stubborn coins ----
+//
+// Len <= size is stated without a probability. A pass in which every coin says
+// "keep" leaves the buffer full and must be followed by another one, however
+// often that happens (probability 2^-(size*passes), so the exact analysis prunes
+// such branches long before 16 or 40 of them). Scripted words drive exactly that:
+// K keep-everything passes, then one that drops everything - twice in a row.
+
+type stubbornCase struct {
+	Size   int `json:"buffer_size"`
+	Passes int `json:"keep_everything_passes"`
+}
+
+func checkStubborn(sc stubbornCase) *mc.Failure {
+	setOrder("sorted")
+	src := &script{}
+	ctr := newCounter(sc.Size, src)
+	buf := make([]int, sc.Size-1)
+	for i := range buf {
+		buf[i] = i
+	}
+	setState(ctr, buf, math.MaxUint64)
+	keep := make([]uint64, sc.Passes, sc.Passes+2)
+	for i := range keep {
+		keep[i] = math.MaxUint64
+	}
+	for round, v := range []int{sc.Size - 1, sc.Size, sc.Size + 1} {
+		words := append([]uint64{}, keep...)
+		if _, p := getState(ctr); p < math.MaxUint64 {
+			words = append([]uint64{0}, words...) // the admission roll: below any threshold
+		}
+		src.words, src.used, src.short = append(words, 0, 0), 0, false
+		ctr.Add(v)
+		if n := ctr.Len(); n > sc.Size {
+			return mc.Failf(round, "buffer of %d: after Add number %d, whose first %d passes kept every element, Len=%d exceeds the buffer size", sc.Size, round+1, sc.Passes, n)
+		}
+		if n, cnt := ctr.Len(), ctr.Count(); n > 0 && (cnt%uint64(n) != 0 || (cnt/uint64(n))&(cnt/uint64(n)-1) != 0) {
+			return mc.Failf(round, "buffer of %d: Count=%d is not Len=%d times a power of two", sc.Size, cnt, n)
+		}
+	}
+	return nil
+}
+
 // ---- statistical complement ----
 //
 // When the harness cannot own the randomness of a configuration (the code
@@ -1073,8 +1116,26 @@ func main() {
 					coins++
 				}
 			}
+			var stubborn int64
+			for _, size := range []int{2, 3, 4, 8, 33} {
+				for _, k := range []int{1, 2, 7, 15, 16, 17, 31, 32, 33, 40} {
+					if size*k > 62*4 && size > 8 {
+						continue // the threshold cannot be halved more than 63 times
+					}
+					if k > 60 {
+						continue
+					}
+					sc := stubbornCase{size, k}
+					if f := mc.GuardT("cvm-stubborn", sc, func() *mc.Failure { return checkStubborn(sc) }); f != nil {
+						r.Violation(mc.Case{Harness: "cvm-stubborn", Trace: mc.J(sc), Msg: f.Msg, Step: f.Step})
+					}
+					stubborn++
+				}
+			}
+			r.Count("stubborn_coin_cases", stubborn)
+			coins += stubborn
 			r.AddEval(coins, coins, coins, coins)
-			r.Count("one_coin_per_element_cases", coins)
+			r.Count("one_coin_per_element_cases", coins-stubborn)
 			if anyGaveUp || os.Getenv("VERIF_C19_FORCE_STAT") == "1" {
 				statisticalComplement(r)
 			}
@@ -1150,6 +1211,19 @@ func main() {
 				return mc.Failf(-1, "bad trace: %v", err)
 			}
 			return checkLarge(lc)
+		},
+	}, mc.Harness{
+		Name:    "cvm-stubborn",
+		Explore: func(r *mc.Run) {},
+		Replay: func(c mc.Case) *mc.Failure {
+			var sc stubbornCase
+			if err := mc.Unmarshal(c.Trace, &sc); err != nil {
+				return mc.Failf(-1, "bad trace: %v", err)
+			}
+			if !mc.HooksEnabled || os.Getenv("VERIF_C19_ORDER") != "1" {
+				return nil
+			}
+			return checkStubborn(sc)
 		},
 	}, mc.Harness{
 		Name:    "cvm-coins",
